@@ -120,6 +120,13 @@ def generate(rng, n, tier="quick"):
     directed("inline-layout-pages", [("layout", "<h1>{{> title}}</h1>{{> @partial-block}};"), ("page1", "{{#> layout}}{{#*inline \"title\"}}One{{/inline}}first{{/layout}}"),
                                      ("page2", "{{#> layout}}{{#*inline \"title\"}}Two{{/inline}}second{{/layout}}"), ("main", "{{> page1}}{{> page2}}")], {},
              ("any", "whether a definition inside the block of a call is in force for the called partial is not stated; model and crate are compared"))
+    PE = "{{#each this}}{{@key}}={{this}};{{/each}}"
+    directed("string-context-with-hash", [("pe", PE), ("main", "{{> pe \"h\u00e4l\" k=1}}|{{> pe s k=1}}|{{> pe s}}|{{> pe e k=1}}")],
+             {"s": "\u00e4b\u2192c", "e": ""}, ("must", "0=h;1=\u00e4;2=l;k=1;|0=\u00e4;1=b;2=\u2192;3=c;k=1;||k=1;"))
+    directed("string-context-lookup", [("pl", "[{{lookup this \"1\"}}{{lookup this \"2\"}}{{this.[3]}}]"), ("main", "{{#each names}}{{> pl x=@index}}{{/each}}")],
+             {"names": ["h\u00e9llo", "\U0001F600ab", "ab"]}, ("must", "[\u00e9ll][ab][b]"))
+    directed("array-context-with-hash", [("pe", PE), ("main", "{{> pe xs k=1}}|{{> pe [7,8] z=0}}")], {"xs": ["a", ["b"], None]},
+             ("must", "0=a;1=[b];2=;k=1;|0=7;1=8;z=0;"))
     directed("dynamic", [("p", "P[{{x}}]"), ("main", "{{> (lookup this \"n\") x=1}}")], {"n": "p"}, ("must", "P[1]"))
     directed("twice", [("p", "[{{> @partial-block}}{{> @partial-block}}]"), ("main", "{{#> p}}B{{/p}}")], {}, ("must", "[BB]"))
     directed("thrice-nested", [("p", "<{{> @partial-block}}{{> @partial-block}}{{> @partial-block}}>"), ("main", "{{#> p}}1{{#> p}}2{{/p}}{{/p}}")], {}, ("must", "<1<222>1<222>1<222>>"))
